@@ -1,4 +1,5 @@
 import CocoVerif.Model.Front
+import CocoVerif.Model.Emit
 
 /-!
 # Theorems about the front-end model (`Model.Front`), used by C03, C04, C08, C09
@@ -34,6 +35,31 @@ theorem dim_bound_hex (name : String) (v0 p : Bool) (h : Nat) (f : Bool) (isS : 
     dimEntry (.e (.arr (.var name v0) (.mk p [.hex h f]) isS)) =
       .ok (.arr (.var ("arr_" ++ (name.drop 4).toString) isS) (.mk true [.hex (h + 1) false]) isS) := by
   rfl
+
+section
+open CocoVerif.Model.Emit
+/-- a DIM statement with one numeric entry (a name that does not end in `$`), no pre-initialisation:
+the text is `DIM ` followed by the entry as emission writes it - whatever the default string size
+and the size map -/
+theorem dim_text_numeric (v : Expr) (d : Int) (sz : List (String × Int))
+    (h : (dimName v).endsWith "$" = false) :
+    stmt 0 true (.dim [v] false d sz []) = "DIM " ++ expr 0 v := by
+  simp [stmt, dimText, dimItems, exprs, pretextOf, ind, join, h]
+  rfl
+
+/-- **source bound to emitted text**: `DIM A(n1,…,nk)` (decimal bounds, numeric array) comes out as
+`DIM arr_A(n1+1, …, nk+1)` - the constructor's `+1` (`dim_bounds`) followed by emission -/
+theorem dim_source_to_text (name : String) (v0 p : Bool) (ms : List Int) (d : Int) (sz : List (String × Int))
+    (h : ("arr_" ++ (name.drop 4).toString).endsWith "$" = false) :
+    ∃ e, dimEntry (.e (.arr (.var name v0) (.mk p (ms.map (fun m => .lit (.int m) false))) false)) = .ok e
+      ∧ stmt 0 true (.dim [e] false d sz []) =
+          "DIM arr_" ++ (name.drop 4).toString ++ elist 0 (.mk true (ms.map (fun m => .lit (.int (m + 1)) false))) := by
+  refine ⟨_, dim_bounds name v0 p ms false, ?_⟩
+  rw [dim_text_numeric _ d sz (by simpa [dimName, varName] using h)]
+  simp [expr, String.append_assoc]
+  rfl
+
+end
 
 /-- a scalar in a DIM list is kept as it is -/
 theorem dim_scalar (n : String) (b : Bool) : dimEntry (.e (.var n b)) = .ok (.var n b) := rfl
